@@ -447,6 +447,10 @@ func preamble(t *testing.T) bool {
 			case f.Type == ref.TString || (f.Type == ref.TOctets && f.Len == ref.VarLen):
 				if k == 1 {
 					vs = append(vs, ref.Value{B: long})
+				} else if k == 3 {
+					// 255 bytes: the three-byte length prefix is ff 00 ff, so that a cut inside it leaves a
+					// first length byte of zero behind
+					vs = append(vs, ref.Value{B: long[:255]})
 				} else {
 					vs = append(vs, ref.Value{B: []byte("pod-a")})
 				}
@@ -473,7 +477,7 @@ func preamble(t *testing.T) bool {
 		view := gen.View(fs)
 		min := ref.MinRecLen(view)
 		tm := ref.TemplateMessage(ref.Header{Domain: 1, Seq: 9, ExportTime: 77}, gen.Wire(256, fs))
-		dm := ref.DataMessage(ref.Header{Domain: 1, Seq: 10, ExportTime: 78}, ref.Template{ID: 256, Fields: view}, [][]ref.Value{mkVals(fs, 0), mkVals(fs, 1), mkVals(fs, 2)})
+		dm := ref.DataMessage(ref.Header{Domain: 1, Seq: 10, ExportTime: 78}, ref.Template{ID: 256, Fields: view}, [][]ref.Value{mkVals(fs, 0), mkVals(fs, 1), mkVals(fs, 2), mkVals(fs, 3)})
 		for _, mode := range modes {
 			for _, proto := range []string{"tcp", "udp"} {
 				base := Case{Mode: mode, Proto: proto}
